@@ -1401,6 +1401,22 @@ func rulesBounds(p *Prog, r *Report) {
 						continue
 					}
 					goals = []constraint{geq(lo, linConst(0), "low ≥ 0"), geq(hi, lo, "low ≤ high"), geq(fb.lenOf(t.X, t, 0), hi, "high ≤ len")}
+				case *ssa.Call:
+					// slices.Grow(s, n) panics for a negative n
+					callee := t.Call.StaticCallee()
+					if callee == nil || len(t.Call.Args) != 2 {
+						continue
+					}
+					o := callee.Origin()
+					if o == nil || o.Pkg == nil || o.Pkg.Pkg.Path() != "slices" || o.Name() != "Grow" {
+						continue
+					}
+					n, ok := fb.linOf(t.Call.Args[1], t, 0)
+					if !ok {
+						r.Unknown("B", key+"|"+instrDesc(in), p.pos(in.Pos()), "kind=undecided: the count given to slices.Grow is not a linear integer expression")
+						continue
+					}
+					goals = []constraint{geq(n, linConst(0), "slices.Grow count ≥ 0")}
 				default:
 					continue
 				}
